@@ -5,6 +5,7 @@ package main
 import (
 	"fmt"
 	"math/big"
+	"sort"
 
 	"github.com/NethermindEth/juno/core/crypto"
 	"github.com/NethermindEth/juno/core/felt"
@@ -55,6 +56,31 @@ func feltHex(f *felt.Felt) string { return f.BigInt(new(big.Int)).Text(16) }
 type trace struct {
 	Roots []string `json:"roots"`
 	Err   string   `json:"err,omitempty"`
+	Read  string   `json:"read,omitempty"` // first read-back (Get after reopen) that differs from the map
+}
+
+type getter interface {
+	Get(key *felt.Felt) (felt.Felt, error)
+}
+
+// readBack compares Get of every key ever written with the abstract map.
+func readBack(g getter, m map[string]string) string {
+	keys := make([]string, 0, len(m))
+	for k := range m {
+		keys = append(keys, k)
+	}
+	sort.Strings(keys)
+	for _, k := range keys {
+		kf := hexFelt(k)
+		v, err := g.Get(&kf)
+		if err != nil {
+			return fmt.Sprintf("Get(%s): %v", k, err)
+		}
+		if feltHex(&v) != m[k] {
+			return fmt.Sprintf("Get(%s) = %s, last value written is %s", k, feltHex(&v), m[k])
+		}
+	}
+	return ""
 }
 
 // ---- trie2 on rawdb over the memory store, with commit + reopen ---------------------------
@@ -113,10 +139,12 @@ func runTrie2(c *TrieCase) (tr trace) {
 		if err != nil {
 			return err
 		}
+		written := map[string]string{}
 		for _, op := range c.Ops {
 			switch op.Op {
 			case "put":
 				k, v := hexFelt(op.K), hexFelt(op.V)
+				written[op.K] = feltHex(&v)
 				if err := s.tr.Update(&k, &v); err != nil {
 					return err
 				}
@@ -132,6 +160,9 @@ func runTrie2(c *TrieCase) (tr trace) {
 					return err
 				}
 				tr.Roots = append(tr.Roots, feltHex(&h))
+				if tr.Read == "" {
+					tr.Read = readBack(s.tr, written)
+				}
 			}
 		}
 		h, err := s.tr.Hash()
@@ -171,10 +202,12 @@ func runLegacy(c *TrieCase) (tr trace) {
 		if err != nil {
 			return err
 		}
+		written := map[string]string{}
 		for _, op := range c.Ops {
 			switch op.Op {
 			case "put":
 				k, v := hexFelt(op.K), hexFelt(op.V)
+				written[op.K] = feltHex(&v)
 				if _, err := t.Put(&k, &v); err != nil {
 					return err
 				}
@@ -195,6 +228,9 @@ func runLegacy(c *TrieCase) (tr trace) {
 				tr.Roots = append(tr.Roots, feltHex(&h))
 				if t, err = open(); err != nil {
 					return err
+				}
+				if tr.Read == "" {
+					tr.Read = readBack(t, written)
 				}
 			}
 		}
@@ -238,6 +274,27 @@ func specTrace(c *TrieCase) (roots []string, final map[string]felt.Felt) {
 	}
 	obs()
 	return roots, m
+}
+
+// script for the legacy (core/trie) model: commit = Hash() + reopen (dirty list dropped)
+func legacyModelLines(c *TrieCase, id int) (lines []string, obsIdx []int) {
+	lines = append(lines, fmt.Sprintf("lnew %d %d %s", id, c.Height, c.Hash))
+	for _, op := range c.Ops {
+		switch op.Op {
+		case "put":
+			lines = append(lines, fmt.Sprintf("lput %d %s %s", id, op.K, op.V))
+		case "hash":
+			obsIdx = append(obsIdx, len(lines))
+			lines = append(lines, fmt.Sprintf("lhash %d", id))
+		case "commit":
+			obsIdx = append(obsIdx, len(lines))
+			lines = append(lines, fmt.Sprintf("lhash %d", id))
+			lines = append(lines, fmt.Sprintf("lreopen %d", id))
+		}
+	}
+	obsIdx = append(obsIdx, len(lines))
+	lines = append(lines, fmt.Sprintf("lhash %d", id))
+	return lines, obsIdx
 }
 
 // model script for the Lean driver: slot id, answers to be read back for each line
